@@ -1,6 +1,6 @@
 (* C02 - Readings of closed candles are final: no look-ahead, no repainting.
-   Same scope as C01 (leaf indicators; obligations discharged in Props/C01.v for HLA, TR, OBV,
-   EMA, SMA, RMA, WMA, ROC, Counter and every Amorph-wrapped analysis function): the store
+   Same scope as C01 (leaf indicators; obligations discharged in Props/C01.v for all fourteen
+   indicator classes without helper series, every Amorph-wrapped analysis function included): the store
    after any further appends extends the store before them, a batch over a longer list gives
    the shorter list's readings on the shorter list's candles, and on a collapsing timeframe
    every closed bucket keeps its readings when more candles arrive. *)
